@@ -159,7 +159,7 @@ def parse_sem(line: str) -> dict:
         v = [x.s if isinstance(x, Q) else x for x in item[1:]]
         if k in ("parsed", "tree-equal"):
             d[k] = v[0] == "1"
-        elif k in ("certified", "certified-sem", "pure-equal"):
+        elif k in ("certified", "certified-sem", "certified-semx", "pure-equal"):
             d[k] = v[0]
         elif k in ("ran", "skipped"):
             d[k] = int(v[0])
